@@ -432,6 +432,11 @@ fn edit_name(e: &Edit) -> &'static str {
 }
 
 /// Execute one scenario. Never panics for reasons inside the system under test.
+thread_local! {
+    static LIB_STREAM_CACHE: std::cell::RefCell<BTreeMap<String, std::sync::Arc<Vec<f64>>>> =
+        const { std::cell::RefCell::new(BTreeMap::new()) };
+}
+
 pub fn run(sc: &Scenario) -> RunResult {
     let mut res = RunResult::default();
     let opts = SutOptions {
@@ -473,6 +478,54 @@ pub fn run(sc: &Scenario) -> RunResult {
     } else {
         None
     };
+    // reference streams of the standard-library voices: each one alone, fault-free, on the same
+    // kind of backend with the same options
+    crate::voices::LIB_REFS.with(|m| m.borrow_mut().clear());
+    if is_c07 {
+        let mut wanted: BTreeMap<String, String> = BTreeMap::new();
+        for v in &sc.versions {
+            if let Version::Gen(p) = v {
+                for s in p.sites.iter().filter(|s| s.kind == crate::voices::Kind::Lib) {
+                    wanted.insert(s.lib_expr(), s.lib_reference_source());
+                }
+            }
+        }
+        let ref_backend = if sc.backend.is_wasm() { Backend::WasmP3 } else { Backend::Vm };
+        for (key, src) in wanted {
+            // streams are kept for the life of the worker process: a stream is a function of the
+            // voice, the backend kind and the options, and any prefix of it serves a shorter run
+            let cache_key = format!("{key}|{}|{}|{}|{}", sc.backend.is_wasm(), sc.sample_rate, sc.self_init_0, sc.with_scheduler);
+            let cached = LIB_STREAM_CACHE.with(|c| c.borrow().get(&cache_key).filter(|v| v.len() >= sc.total as usize).cloned());
+            if let Some(st) = cached {
+                res.bump("lib_voice_references");
+                crate::voices::LIB_REFS.with(|m| m.borrow_mut().insert(key, st));
+                continue;
+            }
+            let stream = crate::util::guarded(|| {
+                let mut s = Sut::start(ref_backend, &src, None, &opts, RetireMode::Present)?;
+                let mut out = vec![];
+                let mut stream = Vec::with_capacity(sc.total as usize);
+                for t in 0..sc.total {
+                    s.frame(t, &[], &mut out)?;
+                    stream.push(out.first().copied().unwrap_or(0.0));
+                }
+                Ok::<_, String>(stream)
+            })
+            .unwrap_or_else(|p| Err(format!("panic: {p}")));
+            match stream {
+                Ok(st) => {
+                    res.bump("lib_voice_references");
+                    let st = std::sync::Arc::new(st);
+                    LIB_STREAM_CACHE.with(|c| c.borrow_mut().insert(cache_key, st.clone()));
+                    crate::voices::LIB_REFS.with(|m| m.borrow_mut().insert(key, st));
+                }
+                Err(e) => {
+                    res.outcome = Some(Outcome::Skip(format!("reference run of a library voice failed: {e}")));
+                    return res;
+                }
+            }
+        }
+    }
     // C07 oracle: voice models.
     let mut voracle = match (&sc.versions[0], is_c07) {
         // the VM reads the driver plugin's rate (the simulator leaves it at the 48 kHz default), the
@@ -551,11 +604,24 @@ pub fn run(sc: &Scenario) -> RunResult {
     let mut ref_out = Vec::with_capacity(n_out);
     let mut t = 0u64;
     let mut cb = 0usize;
+    let mut zero_frame_run = 0u32;
+    let mut last_swap_at: Option<u64> = None;
     let mut violation: Option<Outcome> = None;
     let mut state_nonzero_seen = false;
 
     'outer: while t < sc.total {
-        let b = sc.blocks[cb % sc.blocks.len()].max(1) as u64;
+        // a callback may carry zero frames (legal for an audio host): it still does its try_recv, so
+        // queued payloads are then swapped in back to back with no dsp call in between
+        let mut b = sc.blocks[cb % sc.blocks.len()] as u64;
+        if b == 0 {
+            zero_frame_run += 1;
+            if zero_frame_run > 8 {
+                b = 1;
+            }
+        }
+        if b > 0 {
+            zero_frame_run = 0;
+        }
         cb += 1;
         // ---- non-RT side: saves, compile service (FIFO, blocking), delivery ----
         while saves.front().is_some_and(|s| s.at <= t) {
@@ -608,6 +674,10 @@ pub fn run(sc: &Scenario) -> RunResult {
                         if t > 0 {
                             res.bump("swaps_mid_run");
                         }
+                        if last_swap_at == Some(t) {
+                            res.bump("swaps_back_to_back_without_a_dsp_call");
+                        }
+                        last_swap_at = Some(t);
                         if state_nonzero_seen {
                             res.bump("swaps_with_live_state");
                         }
@@ -816,7 +886,18 @@ fn gen_blocks(rng: &mut Rng) -> Vec<u32> {
     if rng.chance(1, 2) {
         vec![*rng.pick(&SIZES)]
     } else {
-        (0..rng.range(2, 6)).map(|_| *rng.pick(&SIZES)).collect()
+        let mut v: Vec<u32> = (0..rng.range(2, 6)).map(|_| *rng.pick(&SIZES)).collect();
+        // one such list in three contains zero-frame callbacks (never only those)
+        if rng.chance(1, 3) {
+            let k = rng.range(1, (v.len() - 1) as u64) as usize;
+            for _ in 0..k {
+                let i = rng.below(v.len() as u64) as usize;
+                if v.iter().filter(|x| **x > 0).count() > 1 {
+                    v[i] = 0;
+                }
+            }
+        }
+        v
     }
 }
 
@@ -1419,7 +1500,10 @@ fn base_scenario(prop: &str, backend: Backend, versions: Vec<Version>, saves: Ve
 
 /// All sweep scenarios of a property, in a fixed order.
 pub fn sweep_scenarios(prop: &str) -> Vec<Scenario> {
-    use crate::voices::ALL_KINDS;
+    // (standard-library voices stay out of the systematic sweeps: their programs compile ten times
+    // slower, and the sweeps keep the voice positions they always had)
+    let kinds: Vec<crate::voices::Kind> =
+        crate::voices::ALL_KINDS.iter().copied().filter(|k| *k != crate::voices::Kind::Lib).collect();
     let mut out = vec![];
     if prop == "C06" {
         let backends = [
@@ -1430,13 +1514,13 @@ pub fn sweep_scenarios(prop: &str) -> Vec<Scenario> {
             Backend::WasmP3,
             Backend::WasmP4,
         ];
-        let mut progs: Vec<Prog> = ALL_KINDS.iter().map(|k| sweep_prog(vec![sweep_voice(*k, 0, 0)])).collect();
+        let mut progs: Vec<Prog> = kinds.iter().map(|k| sweep_prog(vec![sweep_voice(*k, 0, 0)])).collect();
         // a few multi-voice programs
         for (a, b, c) in [(0usize, 4, 8), (3, 9, 12), (15, 16, 5), (14, 2, 7)] {
             progs.push(sweep_prog(vec![
-                sweep_voice(ALL_KINDS[a], 0, 1),
-                sweep_voice(ALL_KINDS[b], 1, 1),
-                sweep_voice(ALL_KINDS[c], 2, 1),
+                sweep_voice(kinds[a], 0, 1),
+                sweep_voice(kinds[b], 1, 1),
+                sweep_voice(kinds[c], 2, 1),
             ]));
         }
         const N: u64 = 20;
@@ -1478,7 +1562,7 @@ pub fn sweep_scenarios(prop: &str) -> Vec<Scenario> {
             // one kind per distinct shape
             let mut seen = std::collections::BTreeSet::new();
             let mut v = vec![];
-            for k in ALL_KINDS {
+            for k in kinds.iter().copied() {
                 let voice = sweep_voice(k, 0, 0);
                 let src = sweep_prog(vec![voice]).render();
                 if let Ok(sh) = reference_shapes(&src, None, false) {
